@@ -117,10 +117,11 @@ def model_runs(ctx):
             return ("stmt" if workers == 1 else "big", name, res, expect_unseen)
         return go
     # witnesses: 1 killed, 2 cparked, 3 two claimants, 6 head-of-line (needs an exit that suspends: not here), 8 refused
-    runs.append(stmt("c13_3x2x2", {}, {4, 5, 6, 7, 8, 9, 10}))
+    # (11-13 are situations of blocking service calls, C14: no "call" operation in the C13 configurations)
+    runs.append(stmt("c13_3x2x2", {}, {4, 5, 6, 7, 8, 9, 10, 11, 12, 13}))
     runs.append(stmt("c13_foreign_deco", {"Task": "{t1, t2}", "Foreign": "{f1}", "Name": "{n1}", "Kinds": '{"trig"}',
                                           "Ctx": "{c1}", "MaxOps": "1",
-                                          "Ops": '{"unique", "sleep"}', "Decos": "<- DecosAll"}, {4, 5, 6, 7, 9, 10}))
+                                          "Ops": '{"unique", "sleep"}', "Decos": "<- DecosAll"}, {4, 5, 6, 7, 9, 10, 11, 12, 13}))
     if not ctx.quick:
         runs.append(stmt("c13_foreign_deco_2ctx_ops2", {"Task": "{t1, t2}", "Foreign": "{f1}", "Name": "{n1}", "Kinds": '{"trig", "svc"}',
                                                         "MaxOps": "2", "Ops": '{"unique", "sleep"}', "Decos": "<- DecosAll"}, None, workers=4))
